@@ -45,6 +45,29 @@ Theorem C08_empty_input_single_chunk : forall start last l lims,
 Proof. exact empty_single_chunk. Qed.
 Print Assumptions C08_empty_input_single_chunk.
 
+(* For EVERY input list -- no ordering hypothesis -- and every limit schedule, what the
+   iterator hands out is exactly the prefix of the rows up to and including the first row
+   whose seq is last_seq; so everything is served exactly when no row follows the first row
+   carrying last_seq.  Strictly increasing seqs (the property's quantifier) guarantee that;
+   two rows under one seq = last_seq do not: the boundary of the known finding
+   resurrect-duplicate-seq (C01/C05). *)
+Theorem C08_served_is_prefix_up_to_last_seq : forall cs start last lims out stf,
+  (length cs < length lims)%nat ->
+  run lims (start_cursor cs start last) = (out, stf) ->
+  concat (map fst out) = upto last cs.
+Proof. exact run_serves_upto. Qed.
+Print Assumptions C08_served_is_prefix_up_to_last_seq.
+
+Theorem C08_everything_served_iff_nothing_follows_last_seq : forall last cs,
+  upto last cs = cs <->
+  (forall pre c post, cs = pre ++ c :: post -> c_seq c = last -> post = []).
+Proof. exact upto_all. Qed.
+Print Assumptions C08_everything_served_iff_nothing_follows_last_seq.
+
+Example C08_duplicate_last_seq_drops_the_second_row :
+  fst (run [10; 10; 10] (start_cursor [mkChg 0 5 1; mkChg 0 5 2] 0 0)) = [([mkChg 0 5 1], (0, 0))].
+Proof. vm_compute. reflexivity. Qed.
+
 (* the boolean oracle run on implementation output is the same statement *)
 Theorem C08_oracle_exact : forall cs start last out,
   check_chunks cs start last out = true <-> chunks_spec cs start last out.
